@@ -2,7 +2,8 @@
 """Compiler for C11: bodies of the lookup functions of breakpad-symbols -> coq/Gen/C11Src.v     argv: <repo> <outdir>
 
 Not a template.  The bodies of
-  breakpad-symbols/src/sym_file/types.rs   Function::{get_inlinee_at_depth, get_outermost_sourceloc, get_innermost_sourceloc}
+  breakpad-symbols/src/sym_file/types.rs   Function::{memory_range, get_inlinee_at_depth, get_outermost_sourceloc, get_innermost_sourceloc},
+                                           StackInfoWin::memory_range
   breakpad-symbols/src/sym_file/mod.rs     SymbolFile::{find_nearest_public, fill_symbol}
 are tokenised, parsed (a small Rust subset: let / if / if let / match / for x in n.. / return / break / assignment /
 closures / method chains / tuples / ? / as / & / comparison and + -) and compiled, statement by statement, into Gallina
@@ -12,7 +13,8 @@ over the vocabulary of coq/C11/Prims.v:
     (`let kj := fun ... => rest in`) that every branch which falls through calls with the current values of the mutable
     variables (`frame`, `let mut` / `Some(mut x)` bindings);
   * `+` / `-` on u64 / u32 are `chk_add` / `chk_sub` (debug trap, release wrap), on usize `usize_sub` (a trap in both
-    profiles: the wrapped index is out of bounds for any vector that fits in memory), `v[i]` is `vec_index` (a panic site);
+    profiles: the wrapped index is out of bounds for any vector that fits in memory), `v[i]` is `vec_index` (a panic site),
+    `Range::new(a, b)` is `range_new` (range-map 0.2.0 panics when a > b);
   * `for x in n.. { body }` becomes a generated Fixpoint over a fuel argument (the Rust loop has no bound; the theorems of
     C11/SrcTie.v give the fuel that suffices) whose arguments are the variables the body uses; `break` returns the mutable
     variables, the end of the body steps the u32 counter with `chk_add p 32`;
@@ -813,6 +815,14 @@ class Gen:
             path, args = e[1], e[2]
             if path == ["Some"] and len(args) == 1:
                 return self.expr(args[0], env, K(lambda text, t: k.fn("(Some %s)" % par(text), ("opt", t)), k.tail))
+            if path == ["Range", "new"] and len(args) == 2:
+                def rn(vs):
+                    (a, at), (b, bt) = vs
+                    if at != "u64" or bt != "u64":
+                        self.fail("Range::new of %r and %r" % (at, bt))
+                    x = self.fresh("x")
+                    return "do %s <- range_new %s %s;\n%s" % (x, a, b, k.fn(x, "range"))
+                return self.exprs(args, env, rn)
             self.fail("call of `%s` is outside the subset" % "::".join(path))
         if kind == "closure":
             self.fail("closure outside an argument position")
@@ -1105,6 +1115,14 @@ SIGS = {
 
 parts = []
 parts.append(compile_fn(
+    "func_memory_range", "Function::memory_range (types.rs)", ty_src,
+    r"impl Function \{\s*pub fn memory_range\(", "Function", [], "opt", ("opt", "range"), SIGS,
+    "impl Function { pub fn memory_range(&self) -> Option<Range<u64>>"))
+parts.append(compile_fn(
+    "win_memory_range", "StackInfoWin::memory_range (types.rs)", ty_src,
+    r"impl StackInfoWin \{\s*pub fn memory_range\(", "StackInfoWin", [], "opt", ("opt", "range"), SIGS,
+    "impl StackInfoWin { pub fn memory_range(&self) -> Option<Range<u64>>"))
+parts.append(compile_fn(
     "get_inlinee_at_depth", "Function::get_inlinee_at_depth (types.rs)", ty_src,
     r"pub fn get_inlinee_at_depth\(", "Function", [("depth", "u32"), ("addr", "u64")], "opt", SIGS[("Function", "get_inlinee_at_depth")][1], SIGS,
     "pub fn get_inlinee_at_depth(&self, depth: u32, addr: u64) -> Option<(u32, u32, u64, u32)>"))
@@ -1126,8 +1144,8 @@ parts.append(compile_fn(
     "pub fn fill_symbol(&self, module: &dyn Module, frame: &mut dyn FrameSymbolizer)"))
 
 out = """(* GENERATED by translate/c11_compile.py from breakpad-symbols/src/sym_file/{types,mod}.rs - do not edit.
-   The bodies of Function::{get_inlinee_at_depth, get_outermost_sourceloc, get_innermost_sourceloc} and
-   SymbolFile::{find_nearest_public, fill_symbol}, compiled statement by statement into Gallina over the
+   The bodies of Function::{memory_range, get_inlinee_at_depth, get_outermost_sourceloc, get_innermost_sourceloc},
+   StackInfoWin::memory_range and SymbolFile::{find_nearest_public, fill_symbol}, compiled statement by statement into Gallina over the
    vocabulary of C11/Prims.v.  C11/SrcTie.v proves them equal to the hand-written model C11/Model.v. *)
 From RM Require Import Base.Word C08.Model C11.Model C11.Prims.
 Open Scope Z_scope.
